@@ -6,7 +6,7 @@ import ast
 import re
 
 from ..facts import calls_in
-from ..index import FuncInfo, dotted_of, norm, own_nodes
+from ..index import FuncInfo, dotted_of, norm, own_nodes, short
 
 PROPERTY = "C04"
 RULES = {
@@ -21,10 +21,13 @@ RULES = {
     "guard admitting dtypes with a different number of elements per byte",
     "R5": "sibling decoders: TensorProtoTensor.numpy and .tobytes accept the same dtype set per storage field; "
     "tobytes/tofile of a class obtain bytes from the same builder",
+    "R7": "logical element order: every flattening / reshaping / byte-producing array call on the tensor byte paths "
+    "(ravel, flatten, reshape, tobytes, resize) uses row-major order - no order= other than 'C' - so elements and bytes "
+    "follow the declared shape, not the array's memory layout",
     "R6": "packing constants: masks are ((1<<K)-1) shifted by multiples of K, shifts are multiples of K below 8, "
     "strides and padding moduli are 8/K in each helper",
 }
-FLOORS = {"R1": 120, "R2": 4, "R3": 8, "R4": 1, "R5": 6, "R6": 20}
+FLOORS = {"R1": 120, "R2": 4, "R3": 8, "R4": 1, "R5": 6, "R6": 20, "R7": 30}
 EXPLANATION = (
     "Evaluates the enum and table literals of _enums/_core/tensor_adapters with ast only and compares them with "
     "each other; derives the sub-byte classes from _BITWIDTH_MAP and checks every storage guard, packing-helper "
@@ -573,7 +576,41 @@ def _const(e):
     return None
 
 
+# calls whose *result content* depends on the order argument (astype/copy/np.array only choose a memory layout)
+ORDER_SENSITIVE = {"ravel", "flatten", "reshape", "tobytes", "resize"}
+R7_MODULES = ("onnx_ir._type_casting", "onnx_ir._core", "onnx_ir.serde", "onnx_ir.tensor_adapters", "onnx_ir.external_data",
+              "onnx_ir._convenience._constructors", "onnx_ir._safetensors")
+
+
+def rule_r7(ctx):
+    n_sites = 0
+    for mn in R7_MODULES:
+        m = ctx.repo.modules.get(mn)
+        ctx.require(m is not None, f"module {mn} not found")
+        for f in m.all_funcs:
+            for c in own_nodes(f.node):
+                if not isinstance(c, ast.Call):
+                    continue
+                name = c.func.attr if isinstance(c.func, ast.Attribute) else (c.func.id if isinstance(c.func, ast.Name) else None)
+                if name not in ORDER_SENSITIVE:
+                    continue
+                n_sites += 1
+                kw = [k for k in c.keywords if k.arg == "order"]
+                # positional order argument: ravel(order) / flatten(order) / tobytes(order)
+                pos = c.args[0] if name in ("ravel", "flatten", "tobytes") and isinstance(c.func, ast.Attribute) and c.args else None
+                val = kw[0].value if kw else pos
+                ok = val is None or (isinstance(val, ast.Constant) and val.value in ("C", None))
+                ctx.check("R7", f"{f.local}: {short(norm(c))} is row-major", ok, f, c,
+                          f"`{short(norm(c))}` takes the elements in memory/column order (order={norm(val) if val is not None else ''}): for an "
+                          "array whose axes are permuted in memory (a transpose, Fortran order) the flattened elements - and the "
+                          "packed bytes built from them - are those of a different logical tensor than numpy()/shape report",
+                          how="order argument of the array call is absent or the constant 'C'", nontrivial=val is not None,
+                          construct=short(norm(c)))
+    ctx.require(n_sites >= 30, f"only {n_sites} order-sensitive array calls found on the tensor byte paths")
+
+
 def run(ctx):
+    rule_r7(ctx)
     rule_r1(ctx)
     rule_r2(ctx)
     rule_r3(ctx)
